@@ -48,5 +48,9 @@ class Secant(SequenceTransformer):
 
         d2xn = dxn - dxn_1
         dgxn = gxn - gxn_1
+        denominator = d2xn.T @ d2xn
+        if denominator == 0.0:
+            # The residuals are stagnating: no acceleration.
+            return gxn
 
-        return gxn - (d2xn.T @ dxn) / (d2xn.T @ d2xn) * dgxn
+        return gxn - (d2xn.T @ dxn) / denominator * dgxn
